@@ -52,6 +52,11 @@ def model_line(c, K, cvs):
         for q in qs:
             p += [str(i) for i in q]
         return " ".join(p)
+    if fam == "alb":
+        p = ["ALB", hx(M["center"]), hx(M["width"]), str(M["freq"]), hx(M["kT"]), hx(M["range0"]), hx(M["maxrate"]),
+             "1" if M["hard"] else "0", hx(M["k0"]), str(c["it0"]), str(T), str(K)]
+        p += [hx(cvs[t][0]) for t in range(T)]
+        return " ".join(p)
     if fam == "abmd":
         p = ["ABMD", hx(M["k"]), hx(M["stop"]), "1" if M["dec"] else "0", str(c["it0"]), str(T), str(K)]
         p += [hx(cvs[t][0]) for t in range(T)]
@@ -230,8 +235,8 @@ def compare_case(c, K, fmt, mo, A, B, files):
             if int(m["it"]) != blk["it"]:
                 bad.append(("%s:%s:step-number" % (fam, tag), blk["it"], int(m["it"])))
                 return
-            if fam in ("restraint", "extlag", "abmd"):
-                bname = "r" if fam != "abmd" else "a"
+            if fam in ("restraint", "extlag", "abmd", "alb"):
+                bname = "r" if fam not in ("abmd", "alb") else "a"
                 if fam == "extlag" and c["model"].get("nobias"):
                     pass
                 elif not close(float.fromhex(m["E"]), blk["bias"].get(bname, float("nan"))):
@@ -250,6 +255,11 @@ def compare_case(c, K, fmt, mo, A, B, files):
                 resumed_first = (tag == "B" and j == 0)
                 if not (len(il) == len(ml) and all(close(p[0], q[0], 1e-5) and close(p[1], q[1], 2e-5) for p, q in zip(il, ml))):
                     bad.append(("%s:%s:log" % (fam, tag), (blk["it"], il), ml))
+                    return
+            if fam == "alb":
+                # the model reports k/width; the force on the atom is minus that
+                if not close(blk["atomf"]["1"][2], -float.fromhex(m["F"])):
+                    bad.append(("%s:%s:force" % (fam, tag), (blk["it"], blk["atomf"]["1"][2]), -float.fromhex(m["F"])))
                     return
             if fam == "abmd":
                 if not close(blk["atomf"]["1"][2], float.fromhex(m["F"])):
@@ -397,6 +407,22 @@ def compare_case(c, K, fmt, mo, A, B, files):
                         iv = cb.get(key)
                         if iv is None or not close(float(iv[0]), float.fromhex(S[key])):
                             bad.append(("extlag:state:%s" % key, iv, float.fromhex(S[key])))
+        if fam == "alb":
+            blk = state_block(files["a"], "alb", "a")
+            if blk is None:
+                bad.append(("alb:state:block", None, "alb block"))
+            else:
+                for key in ("setCoupling", "currentCoupling", "maxCouplingRange", "couplingRate", "couplingAccum", "mean", "ssd",
+                            "forceCoupling"):
+                    iv = blk.get(key)
+                    if iv is None or not close(float(iv[0]), float.fromhex(S[key])):
+                        bad.append(("alb:state:%s" % key, iv, float.fromhex(S[key])))
+                iv = blk.get("updateCalls")
+                if iv is None or int(iv[0]) != int(S["updateCalls"]):
+                    bad.append(("alb:state:updateCalls", iv, S["updateCalls"]))
+                iv = blk.get("b_equilibration")
+                if iv is None or iv[0] != S["b_equilibration"]:
+                    bad.append(("alb:state:b_equilibration", iv, S["b_equilibration"]))
         if fam == "abmd":
             blk = state_block(files["a"], "abmd", "a")
             iv = blk.get("refValue") if blk else None
